@@ -288,9 +288,10 @@ EnvKid(k, op, o) ==
   /\ hist' = H([t |-> "env", op |-> op, kind |-> "Thing", name |-> k, obj |-> o])
   /\ UNCHANGED <<par, cache, pcache, pc, loc, des, viol, init0>>
 EnvDeleteKid(k)   == store[k].live /\ ~store[k].deleting /\ EnvKid(k, "delete", NoKid) /\ UNCHANGED <<uidc, rvc>>
-EnvRecreateKid(k, c) ==
+\* (the look-alike that replaces a child under its name may or may not carry the labels the selector wants)
+EnvRecreateKid(k, c, lb) ==
   /\ EnvKid(k, IF store[k].live THEN "recreate" ELSE "create",
-            [live |-> TRUE, uid |-> uidc, rv |-> rvc + 1, ctrl |-> c, extra |-> FALSE, lab |-> "xy", deleting |-> FALSE, v |-> "v1", la |-> 0])
+            [live |-> TRUE, uid |-> uidc, rv |-> rvc + 1, ctrl |-> c, extra |-> FALSE, lab |-> lb, deleting |-> FALSE, v |-> "v1", la |-> 0])
   /\ uidc' = uidc + 1 /\ rvc' = rvc + 1
 EnvSetCtrl(k, c)  == /\ store[k].live /\ store[k].ctrl # c
                      /\ EnvKid(k, "setowners", Bump([store[k] EXCEPT !.ctrl = c])) /\ rvc' = rvc + 1 /\ UNCHANGED uidc
@@ -312,7 +313,7 @@ Env ==
   /\ budget > 0 /\ budget' = budget - 1
   /\ \E a \in Actors : pc[a] # "done"
   /\ \/ \E k \in Kids : KidEnabled(k) /\ ( \/ EnvDeleteKid(k)
-                                           \/ \E c \in {0, Foreign} : EnvRecreateKid(k, c)
+                                           \/ \E c \in {0, Foreign}, lb \in {"xy", "none"} : EnvRecreateKid(k, c, lb)
                                            \/ \E c \in {0, Foreign} : EnvSetCtrl(k, c)
                                            \/ \E lb \in {"none", "xy"} : EnvRelabel(k, lb)
                                            \/ EnvTerminate(k) )
